@@ -62,6 +62,9 @@ def gen_case(idx: int, seed: int, tier: str) -> Any:
     if idx % 5 == 4:
         return {"kind": "inflight", "backend": rng.choice(["asyncio", "trio"]), "abort": rng.choice(["failure", "timeout"]),
                 "gen_time": rng.choice([0.5, 1, 2]), "consumer_delay": rng.choice([0, 0.5]), "fail_at": rng.choice([0.25, 0.75, 1.25, 3.25])}
+    if idx % 10 == 2:
+        return {"kind": "aftermath", "backend": rng.choice(["asyncio", "trio"]), "first": rng.choice(["failure", "timeout", "shielded_stall", "two_failures"]),
+                "where": rng.choice(["root", "child"]), "gap": rng.choice([0, 0.5, 30])}
     if idx % 5 == 3:
         return {"kind": "nested", "backend": rng.choice(["asyncio", "trio"]), "where": rng.choice(["prepare", "start"]), "host": rng.choice(["root", "child"]),
                 "inner_timeout": rng.choice([0.5, 1.5, 2.5]), "stall": rng.choice([0.25, 1.0, 2.0, 4.0, "forever"]), "stall_phase": rng.choice(["prepare", "start"]),
@@ -252,6 +255,137 @@ async def nested_scenario(case: dict[str, Any], out: dict[str, Any]) -> None:
     out["left"] = True
 
 
+async def aftermath_scenario(case: dict[str, Any], out: dict[str, Any]) -> None:
+    """what an aborted start-up leaves behind: (1) the start-up is aborted - a component fails, the timeout strikes (possibly while
+    the stalled component is in a section that cannot be interrupted, so that it only notices later), or two sibling components
+    fail at the same moment - and start_component raises; (2) a second, healthy component tree started in the very same context
+    afterwards is unaffected by any of that and by its own (generous) timeout"""
+    import anyio
+    from asphalt.core import Component, ComponentStartError, Context, start_component
+
+    log: list[Any] = out["log"]
+    t0 = [0.0]
+    go = anyio.Event()
+
+    def now() -> float:
+        return anyio.current_time() - t0[0]
+
+    first = case["first"]
+
+    class Stalls(Component):
+        async def start(self) -> None:
+            if first == "shielded_stall":
+                with anyio.CancelScope(shield=True):
+                    await anyio.sleep(3)
+                out["shielded_done_at"] = now()
+                return
+            if first == "timeout":
+                await anyio.sleep(1000)
+            if first in ("failure", "two_failures"):
+                await go.wait()
+                raise RuntimeError("injected failure of the first sibling")
+
+    class AlsoFails(Component):
+        async def start(self) -> None:
+            await go.wait()
+            raise LookupError("injected failure of the second sibling")
+
+    class Trigger(Component):
+        async def start(self) -> None:
+            await anyio.sleep(0.5)
+            go.set()
+
+    class Root1(Component):
+        def __init__(self) -> None:
+            self.add_component("stalls", Stalls)
+            self.add_component("trigger", Trigger)
+            if first == "two_failures":
+                self.add_component("also", AlsoFails)
+
+        async def start(self) -> None:
+            out["root1_start_ran"] = True
+
+    class Quick(Component):
+        async def start(self) -> None:
+            await anyio.sleep(1)
+            out["quick_started_at"] = now()
+
+    class Root2(Component):
+        def __init__(self) -> None:
+            self.add_component("quick", Quick)
+
+    async with Context():
+        t0[0] = anyio.current_time()
+        try:
+            await start_component(Stalls if case["where"] == "root" and first in ("timeout", "shielded_stall") else Root1,
+                                  timeout=1 if first in ("timeout", "shielded_stall") else 100)
+            out["first_outcome"] = "returned"
+        except BaseException as e:
+            out["first_outcome"] = e
+        out["first_done_at"] = now()
+        if case["gap"]:
+            await anyio.sleep(case["gap"])
+        t1 = now()
+        try:
+            await start_component(Root2 if case["where"] == "child" else Quick, timeout=5)
+            out["second_outcome"] = "returned"
+        except BaseException as e:
+            out["second_outcome"] = e
+        out["second_took"] = now() - t1
+        await anyio.sleep(50)
+    log.append("left")
+
+
+def run_aftermath(case: dict[str, Any]) -> dict[str, Any]:
+    from asphalt.core import ComponentStartError
+    from vkit.trace import describe_exc, leaves
+    from vkit.vtime import VirtualDeadlock, run_virtual
+
+    out: dict[str, Any] = {"log": []}
+    V: list[dict[str, Any]] = []
+
+    def bad(key: str, msg: str) -> None:
+        V.append({"key": key, "msg": f"start-up aborted by {case['first']} ({case['where']}), then a second start in the same context after {case['gap']}s: {msg}",
+                  "witness": {"case": case, "outcome": {k: (describe_exc(v) if isinstance(v, BaseException) else v) for k, v in out.items() if k != "log"}}})
+
+    try:
+        run_virtual(case["backend"], aftermath_scenario, case, out)
+    except VirtualDeadlock as e:
+        bad("timeout-not-raised", f"the program never finished ({e})")
+    except BaseException as e:
+        bad("fail-crash", f"scenario crashed: {describe_exc(e)}")
+    c = {"aftermath_scenarios": 1, f"aftermath_first_{case['first']}": 1}
+    if not V:
+        fo = out.get("first_outcome")
+        first = case["first"]
+        if fo == "returned":
+            bad("timeout-not-raised" if first in ("timeout", "shielded_stall") else "fail-not-raised",
+                f"the first start_component returned normally (root start() ran: {bool(out.get('root1_start_ran'))})")
+        elif first in ("timeout", "shielded_stall"):
+            if not isinstance(fo, TimeoutError):
+                bad("timeout-wrong-exception", f"the first start_component raised {describe_exc(fo)} instead of TimeoutError")
+            # (a stalled component that cannot be interrupted may be waited for: any instant from the timeout to its end is fine)
+            lo, hi = (1.0, 1.0) if first == "timeout" else (1.0, 3.0)
+            if not lo - 1e-9 <= out["first_done_at"] <= hi + 1e-9:
+                bad("timeout-time", f"the first start_component ended at virtual time {out['first_done_at']}, expected {lo if lo == hi else (lo, hi)}")
+        elif first == "failure":
+            if not isinstance(fo, ComponentStartError) or not isinstance(fo.__cause__, RuntimeError):
+                bad("fail-wrong-exception", f"the first start_component raised {describe_exc(fo)}")
+        else:
+            # two siblings failing at the same moment: the statement speaks of exactly one failure, so nothing is demanded of what is
+            # raised - only that the start-up does not count as successful
+            c["aftermath_two_failures_both_raised"] = int(len(leaves(fo)) >= 2)
+        if first != "timeout" and first != "shielded_stall" and out.get("root1_start_ran"):
+            bad("fail-ancestor-started", "start() of the root ran although its children failed")
+        so = out.get("second_outcome")
+        if so != "returned":
+            bad("timeout-affected-startup[start-timeout]" if isinstance(so, TimeoutError) else "timeout-affected-startup[start-raised]",
+                f"a healthy tree that needs 1 virtual second (timeout 5) failed to start: {describe_exc(so)}")
+        elif abs(out["second_took"] - 1.0) > 1e-9:
+            bad("timeout-affected-startup[start-schedule]", f"a healthy tree that needs 1 virtual second took {out['second_took']}")
+    return {"violations": V[:3], "sig": ("aftermath", tuple(sorted((k, str(v)) for k, v in case.items()))), "nontrivial": True, "counters": c, "sample": None}
+
+
 def run_nested(case: dict[str, Any]) -> dict[str, Any]:
     from vkit.trace import describe_exc
     from vkit.vtime import VirtualDeadlock, run_virtual
@@ -317,6 +451,8 @@ def run_case(case: Any) -> dict[str, Any]:
         return run_inflight(case)
     if case.get("kind") == "nested":
         return run_nested(case)
+    if case.get("kind") == "aftermath":
+        return run_aftermath(case)
 
     rng = random.Random(case["exc_seed"])
     tree = case["tree"]
